@@ -83,6 +83,25 @@ Theorem C18_pending_region_agrees : forall max net cksum,
 Proof. exact pending_agrees. Qed.
 Print Assumptions C18_pending_region_agrees.
 
+(* Bulk reads (FetchBlockRegions, and FetchBlockHeaders which is the request
+   list (i, 0, 84)): the answer to a list of requests over stored blocks is
+   the list of the single-region answers, in request order ([bulk] returns the
+   first rejection instead when some request is rejected). *)
+Theorem C18_bulk_regions_is_map : forall max net cksum,
+  (forall x, length (cksum x) = 4%nat) -> max < 4294967296 -> net < 4294967296 ->
+  forall h d (reqs : list (nat * N * N)),
+  hist_ok max h -> run max net cksum (db0 cksum) h = Ok d ->
+  Forall (fun q => snd (fst q) < 4294967296 /\ snd q < 4294967296 /\
+                   (fst (fst q) < length (blocks_of h))%nat) reqs ->
+  tx_regions d [] (map (fun q => (N.of_nat (fst (fst q)), snd (fst q), snd q)) reqs) =
+  bulk (map (fun q => match nth_error (blocks_of h) (fst (fst q)) with
+                      | Some raw => if snd (fst q) + snd q <=? len raw
+                                    then Ok (takeN (snd q) (dropN (snd (fst q)) raw)) else Err ERegion
+                      | None => Err ENotFound
+                      end) reqs).
+Proof. exact bulk_regions. Qed.
+Print Assumptions C18_bulk_regions_is_map.
+
 (* Block locations survive serialisation into the block index (reopen). *)
 Theorem C18_location_roundtrip : forall l,
   l_file l < 4294967296 -> l_off l < 4294967296 -> l_len l < 4294967296 ->
@@ -118,6 +137,7 @@ Example C18_h0_runs :
   exists d, run 64 7 ck0 (db0 ck0) h0 = Ok d /\ s_file (d_st d) = 2 /\
     db_fetch 7 ck0 d 1 = Ok (repeat 5 40%nat) /\
     db_region d 0 1 2 = Ok [2; 3] /\ db_region d 0 1 3 = Err ERegion /\
+    tx_regions d [] [(1, 38, 2); (0, 0, 3); (2, 0, 30)] = Ok [[5; 5]; [1; 2; 3]; repeat 9 30%nat] /\
     db_fetch 7 ck0 d 3 = Ok [].
 Proof. vm_compute. eexists; repeat split; reflexivity. Qed.
 
